@@ -649,7 +649,11 @@ def _target_matches(target: str, item_path: str, kind: str) -> bool:
   return target == item_path
 
 
+_EXTRA_TAGS: Dict[str, dict] = {}
+
+
 def _emit_selection(rf: RustFile, relfile: str, sel, contracts, used, chunks, items_meta, fn_tags, apply_rewrites, cfg):
+  _EXTRA_TAGS['cur'] = cfg.get('extra_tags', {})
   """sel: 'fn name' | 'struct Name' | 'enum Name' | 'const NAME' | 'macro name' | 'type Name'
           | ('impl Header', [methods] | None)  (methods None = all)"""
   default_tags = cfg.get('properties', [])
@@ -692,7 +696,11 @@ def _emit_item(it, kind, path, relfile, rf, contracts, used, chunks, items_meta,
   c = contracts.get(path)
   if c is not None: used.add(path)
   if kind == 'fn':
-    fn_tags[path] = (c.tags if c and c.tags else default_tags)
+    tags = list(c.tags if c and c.tags else default_tags)
+    for pat, extra in _EXTRA_TAGS.get('cur', {}).items():
+      if _target_matches(pat, path, kind):
+        tags += [t for t in extra if t not in tags]
+    fn_tags[path] = tags
     if c:
       for at in c.attrs:
         chunks.append(('glue', path, 'attr', indent + at + '\n'))
